@@ -332,7 +332,7 @@ def evaluated(rep, ex: Explorer, qual: str, role: str):
     n_paths = 0
     for n in (0, 1, 2, 3):
         names = [f"c{k}" for k in range(n)]
-        keys = {10 + 3 * k: names[k] for k in range(n)}
+        keys = {(0 if k == 0 else 10 + 3 * k): names[k] for k in range(n)}  # (key 0 among them: a key is not a truth value)
         for weakly in (False, True):
             def setup(I, keys=keys, weakly=weakly):
                 conds = I.alloc(HDict(entries={k: ElemV(("obj", nm), "cond") for k, nm in keys.items()}))
